@@ -65,7 +65,10 @@ def hist_to_scenario(hist, sid):
             cur = (key, progs[key][0])
         elif e == "idle_ret":
             cur = None
-    return {"id": sid, "tick_us": 2000, "sources": srcs, "progs": progs, "steps": steps, "from_model": 1}
+    scn = {"id": sid, "tick_us": 2000, "sources": srcs, "progs": progs, "steps": steps, "from_model": 1}
+    if "limit" in hist[0]:
+        scn["limit"] = hist[0]["limit"]
+    return scn
 
 
 KEEP = {
